@@ -64,6 +64,15 @@ def main():
         def processbuilder(self):
             return InstantBuilder()
 
+    import signal
+
+    class Hang(Exception):
+        pass
+
+    def on_alarm(signum, frame):
+        raise Hang()
+
+    signal.signal(signal.SIGALRM, on_alarm)
     data = json.loads(Path(sys.argv[1]).read_text())
     root = Path(tempfile.mkdtemp(prefix="xvc05-"))
     out = []
@@ -83,6 +92,7 @@ def main():
                     failing.add(o.__xpm__.identifier.all.hex())
                 rets, jobs_of = [], {}
                 with contextlib.redirect_stderr(io.StringIO()):
+                    signal.alarm(int(data.get("case_timeout", 40)))
                     try:
                         with experiment(ws, "xp", port=-1, launcher=InstantLauncher(LocalConnector(ws / "conn"))) as xp:
                             for si, st in enumerate(case["history"]):
@@ -111,8 +121,12 @@ def main():
                                     "jobs_same": reg is jobs_of.get(first),
                                     "scheduled": getattr(job, "_future", None) is not None if hasattr(job, "_future") else False,
                                 })
+                    except Hang:
+                        rec["hang"] = True
                     except Exception as e:
                         rec["exit"] = type(e).__name__
+                    finally:
+                        signal.alarm(0)
                 rec["launched"] = dict(launched)
                 rec["failing"] = sorted(failing)
             except Exception as e:
